@@ -69,9 +69,9 @@ GEN_TRUST = ["rassemble-go and regexp/syntax are not modelled: rassemble.Join is
              "a Differs verdict of the checker is reported only after Go's regexp engine confirms the distinguishing string on both expressions"]
 
 PROPS["C01"] = {
-    "suites": ["passes", "generate"],
+    "suites": ["passes", "generate", "plain_tree"],
     "trusted": GEN_TRUST,
-    "level_text": "Kernel-checked soundness theorem of a derivative-based equivalence/inclusion checker for regular expressions with begin/end-of-text assertions (for all expressions, all contexts, all subject strings over the compared alphabet); kernel-checked structure theorems about a Gallina transcription of the whole generate pipeline (parser, include handling, definition expansion, Assemble/CmdLine processors, processor stack, complete, the six string passes) with rassemble.Join as an oracle: every alternation is grouped before concatenation, block results have one of four shapes, the final text is the sorted flag prefix plus printable text; REFINEMENT THEOREM (simulation proof over all programs, optimisers and notions of meaning obeying seven laws about regex text): the text the operator hands to the final passes means prefixes . plain reading . suffixes, where the plain reading is a machine over meanings that never looks at regex text; the laws are proved for a small regex syntax with set-of-strings semantics (instance theorem), for RE2 they are premises checked per program by the oracle; the call order of the final passes in complete() is regenerated from the AST and pinned; the single-pending-line case is refuted by a model witness that replays on the binary (known finding); the space-range defect of includeVerticalTabInSpaceClass found by the equivalence oracle is repaired in /repo (fix: df79445). Tied by pins on all literals/patterns of the modelled functions, by function-level differential runs of every pass and by end-to-end runs of generated programs through the binary and the model (byte equality of stdout, error class). Per generated program the proved-sound checker decides language equality between the real output and the program's plain reading for ALL subject strings (translation validation).",
+    "level_text": "Kernel-checked soundness theorem of a derivative-based equivalence/inclusion checker for regular expressions with begin/end-of-text assertions (for all expressions, all contexts, all subject strings over the compared alphabet); kernel-checked structure theorems about a Gallina transcription of the whole generate pipeline (parser, include handling, definition expansion, Assemble/CmdLine processors, processor stack, complete, the six string passes) with rassemble.Join as an oracle: every alternation is grouped before concatenation, block results have one of four shapes, the final text is the sorted flag prefix plus printable text; REFINEMENT THEOREM (simulation proof over all programs, optimisers and notions of meaning obeying seven laws about regex text): the text the operator hands to the final passes means prefixes . plain reading . suffixes, where the plain reading is a machine over meanings that never looks at regex text; the laws are proved for a small regex syntax with set-of-strings semantics (instance theorem), for RE2 they are premises checked per program by the oracle; the call order of the final passes in complete() is regenerated from the AST and pinned; the single-pending-line case is refuted by a model witness that replays on the binary (known finding); the space-range defect of includeVerticalTabInSpaceClass found by the equivalence oracle is repaired in /repo (fix: df79445). Tied by pins on all literals/patterns of the modelled functions, by function-level differential runs of every pass and by end-to-end runs of generated programs through the binary and the model (byte equality of stdout, error class). Per generated program the proved-sound checker decides language equality between the real output and the program's plain reading for ALL subject strings (translation validation); the plain-reading machine of the refinement theorem itself (instantiated with syntax trees, extracted) is compared with the harness's structural reading on the buffer the real parser produces (suite plain_tree).",
     "level_note": "Trusted: Coq kernel, translator, extraction, harness generators, Go's regexp/syntax as the definition of RE2 syntax. The optimiser (rassemble-go) is not modelled: that its results preserve the language is decided per generated program by the verified checker, not proved for all programs. Out-of-fuel verdicts of the checker are counted as no verdict. Programs: <= 14 items, depth <= 3.",
     "assumptions": ["the alphabet compared excludes the vertical tab, as the property prescribes", "entries contain no inline flag groups and no word boundaries"],
 }
